@@ -1,4 +1,5 @@
 import PermutaModel.Lemmas.C07Sched
+import PermutaModel.Lemmas.C02SeqOK
 import PermutaModel.Generated.Tables
 
 /-!
@@ -66,6 +67,37 @@ theorem quiescent_good {spec Good} (hs : SeqOK spec Good) (o : AvObj) (ho : Good
     (hfree : (run (initSys o todos) sched).lock = none) : Good (run (initSys o todos) sched).obj := by
   obtain ⟨base, hinv⟩ := run_inv hs sched (init_inv hs o ho todos)
   rw [hinv.free hfree]; exact hinv.good
+
+
+/-! ## Instantiation with the C02 cache invariant: the statements about the real `Av` model -/
+
+/-- **C07 for `Av`**: threads sharing a freshly created class with any valid basis (classical or
+    mesh), any assignment of levels, any schedule: no thread fails and every level read is the
+    specification's level `Spec.C02.level` / `Spec.C02.meshLevel` (as a list up to order) -/
+theorem av_concurrent_correct (B : BasisV) (hB : C02L.ValidBasisV B) (todos : List (List Nat))
+    (sched : List Nat) (tid : Nat) (t : Thread)
+    (ht : (run (initSys (freshObj B) todos) sched).threads[tid]? = some t) :
+    (∀ e, t.phase ≠ .failed e) ∧ ∀ g ∈ t.got, g.2.Perm (C02L.specLevel B g.1) :=
+  concurrent_correct (C02L.seqOK B) (freshObj B) ⟨C02L.ObjInv.fresh hB, rfl⟩ todos sched tid t ht
+
+/-- the same from any sequentially reachable (invariant-satisfying) state of the class, e.g. after
+    arbitrary earlier single-threaded queries -/
+theorem av_concurrent_correct_from (o : AvObj) (ho : C02L.ObjInv o) (todos : List (List Nat))
+    (sched : List Nat) (tid : Nat) (t : Thread)
+    (ht : (run (initSys o todos) sched).threads[tid]? = some t) :
+    (∀ e, t.phase ≠ .failed e) ∧ ∀ g ∈ t.got, g.2.Perm (C02L.specLevel o.basis g.1) :=
+  concurrent_correct (C02L.seqOK o.basis) o ⟨ho, rfl⟩ todos sched tid t ht
+
+/-- no thread ever observes a partially built or partially compacted level of an `Av` object -/
+theorem av_keys_always_ok (o : AvObj) (ho : C02L.ObjInv o) (todos : List (List Nat)) (sched : List Nat) :
+    VisibleOK (C02L.specLevel o.basis) (run (initSys o todos) sched).obj :=
+  keys_always_ok (C02L.seqOK o.basis) o ⟨ho, rfl⟩ todos sched
+
+/-- after the threads are done (lock free) the shared object satisfies the sequential invariant again -/
+theorem av_quiescent_good (o : AvObj) (ho : C02L.ObjInv o) (todos : List (List Nat)) (sched : List Nat)
+    (hfree : (run (initSys o todos) sched).lock = none) :
+    C02L.ObjInv (run (initSys o todos) sched).obj :=
+  (quiescent_good (C02L.seqOK o.basis) o ⟨ho, rfl⟩ todos sched hfree).1
 
 /-- necessity / non-vacuity of the model: *without* mutual exclusion the same machine reaches a state
     in which a thread reads an empty level 3 of `Av(01)` (which really contains `210`): thread 0 builds
